@@ -293,3 +293,9 @@ PROPS["C11"]["rule"] = STORE_RULE + "; plus the concurrent store family: two exp
 _c10 = PROPS["C10"]["shards"]
 PROPS["C10"]["shards"] = lambda tier, seed, search=False: _c10(tier, seed, search) + fields_shards(tier, seed, search)[:2]
 PROPS["C10"]["rule"] = STORE_RULE + "; plus the struct-tag family (names declared both in Secrets and by struct tags, duplicates across the two routes)"
+
+_c09 = PROPS["C09"]["shards"]
+PROPS["C09"]["shards"] = lambda tier, seed, search=False: _c09(tier, seed, search) + [
+    Shard(sh.family, sh.args, driver=sh.driver, binary=sh.binary, race_props=[]) for sh in conc_shards(tier, seed, search)[:3]]
+PROPS["C09"]["race"] = True
+PROPS["C09"]["rule"] = PROPS["C09"]["rule"] + "; plus the concurrent family (a conditional get naming V never receives version V, whatever the schedule)"
